@@ -46,7 +46,8 @@ FromLog(j) ==
     stor  |-> [c \in {"c", "w", "w1"} |-> NC(j.stor[c])],
     dep   |-> NC(j.dep),
     wd    |-> [a \in ACCTS |-> NC(j.wd[a])],
-    dl    |-> [a \in ACCTS |-> NC(j.dl[a])] ]
+    dl    |-> [a \in ACCTS |-> NC(j.dl[a])],
+    avs   |-> j.avs ]
 
 TxOfT(t) ==
   [ s |-> t.s, to |-> t.to, ty |-> t.ty, gas |-> t.gas, price |-> NC(t.price), tip |-> NC(t.tip),
@@ -77,11 +78,11 @@ DigestTagsG(dpre, dpost, inc, failed, plain, restaking) ==
     "STRICT_restakingDigests")
 
 DigestTags(pre, post, dpre, dpost, t, o) ==
-  DigestTagsG(dpre, dpost, Included(pre, post, o), Failed(o), t.to \in ACCTS, t.to \in {"pre", "gw", "w"})
+  DigestTagsG(dpre, dpost, Included(pre, post, o), Failed(o), t.to \in ACCTS, t.to \in {"pre", "gw", "w", "newp"})
 
 DigestTagsBatch(pre, post, dpre, dpost, ts, o) ==
   DigestTagsG(dpre, dpost, o.code = 0 \/ Changed(pre, post), \A i \in DOMAIN ts : Failed(ObsOf(o, i)),
-              \A i \in DOMAIN ts : ts[i].to \in ACCTS, \E i \in DOMAIN ts : ts[i].to \in {"pre", "gw", "w"})
+              \A i \in DOMAIN ts : ts[i].to \in ACCTS, \E i \in DOMAIN ts : ts[i].to \in {"pre", "gw", "w", "newp"})
 
 (***************************************************************************)
 (* strict lane                                                             *)
